@@ -115,21 +115,11 @@ section Fill
 variable {α β : Type} [LT α] [LE α] [DecidableLT α] [DecidableLE α] [DecidableEq α]
   [Std.IsLinearOrder α] [Std.LawfulOrderLT α]
 
-/-- `c` is a coordinate of the right form for the edges `e`, with components `xs`: a number for
-flat (one-dimensional) edges, a list/tuple with one component per axis for nested edges -/
-inductive Proper : Edges α → Coord α → List α → Prop
-  | flat (arr : List α) (x : α) : Proper (.flat arr) (.scalar x) [x]
-  | nested (axes : List (List α)) (xs : List α) : xs.length = axes.length →
-      Proper (.nested axes) (.tuple xs) xs
-
 theorem Proper.length {e : Edges α} {c : Coord α} {xs : List α} (h : Proper e c xs) :
     xs.length = e.axes.length := by
   cases h with
   | flat arr x => rfl
   | nested axes xs h => exact h
-
-/-- every per-axis guess function stays within `[ind_min, ind_max]` -/
-def GuessesOK (g : Nat → Nat → Nat → Int) : Prop := ∀ k, GuessOK (g k)
 
 /-- the per-axis loop of `get_bin_on_value` -/
 theorem binsLoop_spec (g : Nat → Nat → Nat → Int) (hg : GuessesOK g) :
@@ -169,12 +159,6 @@ theorem getBinOnValue_wrong_length (g : Nat → Nat → Nat → Int) (axes : Lis
 /-! ## `histogram.fill` -/
 
 variable [Lean.Grind.AddCommMonoid β]
-
-/-- well-formed histogram state: valid edges, bins of the matching regular shape
-(`len(axis) − 1` cells along every axis) -/
-structure WF (h : Hist α β) : Prop where
-  edges : ValidEdges h.edges
-  shape : NArr.HasShape (dimsOf h.edges.axes) h.bins
 
 theorem dimsOf_ne_nil {e : Edges α} (he : ValidEdges e) : dimsOf e.axes ≠ [] := by
   have := he.1
@@ -302,11 +286,6 @@ theorem fill_wf (g : Nat → Nat → Nat → Int) {h h' : Hist α β} (c : Coord
 
 /-! ## sequences of fills -/
 
-/-- sum of a list of weights -/
-def sumW : List β → β
-  | [] => 0
-  | w :: ws => w + sumW ws
-
 omit [Std.IsLinearOrder α] [Std.LawfulOrderLT α] in
 /-- **Sentence (5), unconditionally.**  For any sequence of fills that returns — whatever the
 edges, shapes, coordinates and guesses — the sum of all cells plus `n_out_of_range` grew by
@@ -329,10 +308,6 @@ theorem fillAll_conserves : ∀ (ops : List ((Nat → Nat → Nat → Int) × Co
       rw [t2, t1]
       simp only [List.map_cons, sumW, add_assoc]
 
-/-- every operation of the sequence has in-range guesses and a coordinate of the right form -/
-def OpsOK (e : Edges α) (ops : List ((Nat → Nat → Nat → Int) × Coord α × β)) : Prop :=
-  ∀ op ∈ ops, GuessesOK op.1 ∧ ∃ xs, Proper e op.2.1 xs
-
 /-- a sequence of proper fills into a well-formed histogram never raises -/
 theorem fillAll_ok : ∀ (ops : List ((Nat → Nat → Nat → Int) × Coord α × β)) (h : Hist α β),
     WF h → OpsOK h.edges ops → ∃ h', fillAll h ops = .ok h' ∧ WF h' ∧ h'.edges = h.edges
@@ -347,11 +322,6 @@ theorem fillAll_ok : ∀ (ops : List ((Nat → Nat → Nat → Int) × Coord α 
     exact ⟨h', by simp [fillAll, h1, h2, bind, Except.bind], hwf', he'.trans he⟩
 
 /-! ## creation: `check_edges_increasing` guards the precondition -/
-
-/-- `dim` of a histogram: 1 for flat edges, the number of axes otherwise -/
-def edgesDim : Edges α → Nat
-  | .flat _ => 1
-  | .nested axes => axes.length
 
 /-- for valid edges `histogram(edges, initial_value=init)` is the regular array of `len(axis) − 1`
 cells per axis, all holding `init`, with `n_out_of_range = 0` -/
@@ -435,16 +405,6 @@ theorem histEl_fill_eq (empty : κ) (one : β) (g : Nat → Nat → Nat → Int)
       (fill g e.hist data one).map (fun h => { hist := h, curContext := ctx.getD empty }) := by
   unfold HistEl.fill
   cases fill g e.hist data one <;> rfl
-
-/-- the operations on the wrapped histogram that a flow of values amounts to -/
-def toOps (one : β) (vals : List ((Nat → Nat → Nat → Int) × Coord α × Option κ)) :
-    List ((Nat → Nat → Nat → Int) × Coord α × β) :=
-  vals.map (fun v => (v.1, v.2.1, one))
-
-/-- `_cur_context` after a flow: the context of the last value (`{}` if it was bare) -/
-def lastCtx (empty : κ) : κ → List ((Nat → Nat → Nat → Int) × Coord α × Option κ) → κ
-  | c, [] => c
-  | _, v :: vs => lastCtx empty (v.2.2.getD empty) vs
 
 omit [Std.IsLinearOrder α] [Std.LawfulOrderLT α] in
 /-- filling a flow into the element = the same fills, with weight `one`, on its histogram -/
